@@ -150,6 +150,10 @@ func runC06(r *Run) {
 		runConcurrentAIMD(r, 50, "C06")
 		return
 	}
+	if t.Chance(6, "concurrent-drops") {
+		runConcurrentMonotone(r, true, "C06")
+		return
+	}
 	cfg := drawAlgoCfg(t, []string{"aimd", "vegas", "gradient"}, nil)
 	if cfg.Name == "vegas" && cfg.ProbeMult < 4 {
 		cfg.ProbeMult = 4
@@ -281,6 +285,10 @@ func runC07(r *Run) {
 	t := r.T
 	if t.Chance(8, "concurrent-aimd") {
 		runConcurrentAIMD(r, 10, "C07")
+		return
+	}
+	if t.Chance(8, "concurrent-healthy") {
+		runConcurrentMonotone(r, false, "C07")
 		return
 	}
 	cfg := drawAlgoCfg(t, []string{"aimd", "vegas", "gradient", "gradient2"}, nil)
@@ -542,5 +550,89 @@ func runConcurrentAIMD(r *Run, dropPct int, who string) {
 	}
 	if !reach[final] {
 		r.Fail("concurrent-samples-not-serializable", "aimd", "samples %v reported concurrently left the estimate at %d (initial %d, increment %d); no sequential order of these samples gives that value (possible: %v) - an update was lost or applied to a stale estimate (a drop must lower, an unsaturated sample must not raise the estimate in force when it is applied)", scripts, final, initial, inc, reach)
+	}
+}
+
+// runConcurrentMonotone: samples of ONE kind reported from several goroutines to one delay-based limit.
+// drops == true (C06): every sample is a drop, so the estimate, observed whenever no sample is in progress and at
+// the end, never rises (a drop applied late, to a stale snapshot, must not undo what other drops did).
+// drops == false (C07): every sample is healthy and saturated at the no-load RTT, so the estimate never falls
+// (growth computed from a stale snapshot must not overwrite concurrent growth).
+// Probing is disabled for Gradient (a probe legitimately moves the estimate to the queue allowance); Vegas probes
+// only touch the baseline. A first sample sets the baseline sequentially.
+func runConcurrentMonotone(r *Run, drops bool, who string) {
+	t := r.T
+	var names []string
+	if drops {
+		names = []string{"vegas", "gradient", "gradient"}
+	} else {
+		names = []string{"vegas", "gradient", "gradient", "gradient2"}
+	}
+	cfg := algoCfg{Name: names[t.Intn(len(names), "algo")]}
+	cfg.Initial = []int{200, 60, 20, 120}[t.Intn(4, "initial")]
+	cfg.Min = 1 + t.Intn(4, "min")
+	cfg.Max = 1000
+	cfg.Smoothing = []float64{1.0, 0.5, 0.2}[t.Intn(3, "smoothing")]
+	cfg.Tolerance = 2.0
+	cfg.ProbeInterval = -1
+	cfg.ProbeMult = 30
+	cfg.LongWindow = 10
+	if cfg.Name == "gradient2" {
+		cfg.QFix = 4
+	}
+	if !drops {
+		cfg.Initial = []int{4, 10, 20}[t.Intn(3, "initial-low")]
+		if cfg.Min > cfg.Initial {
+			cfg.Min = cfg.Initial
+		}
+	}
+	a, err := buildAlgo(cfg, false)
+	if err != nil {
+		r.Fail("harness", "build", "%v", err)
+		return
+	}
+	const rtt = 10 * 1000 * 1000
+	a.Lim.OnSample(0, rtt, 1, false) // baseline (app-limited: the estimate does not move)
+	nTasks := 2 + t.Intn(3, "tasks")
+	per := 1 + t.Intn(4, "samples-per-task")
+	r.Mixf("%s concurrent %s samples on %s: tasks=%d each=%d", who, map[bool]string{true: "drop", false: "healthy"}[drops], cfg, nTasks, per)
+	s := r.NewSched()
+	var tasks []*Task
+	for i := 0; i < nTasks; i++ {
+		tasks = append(tasks, s.Go("sampler", func(tk *Task) {
+			for k := 0; k < per; k++ {
+				tk.Begin("OnSample", nil)
+				if drops {
+					a.Lim.OnSample(0, rtt, 1000, true)
+				} else {
+					a.Lim.OnSample(0, rtt, 4000, false)
+				}
+				tk.End(nil)
+			}
+		}))
+	}
+	last, _ := safeEstimate(a.Lim)
+	start := last
+	observe := func(where string) {
+		var cur int
+		if !RootCall(func() { cur = a.Lim.EstimatedLimit() }) {
+			return
+		}
+		if drops && cur > last {
+			s.Fail("drop-raised-limit", cfg.Name+"/concurrent", "%s: only drops are being reported (from %d goroutines) and the estimate rose from %d to %d [%s]", where, nTasks, last, cur, cfg)
+		} else if !drops && cur < last {
+			s.Fail("healthy-sample-lowered-limit", cfg.Name+"/concurrent", "%s: only healthy saturated samples at the no-load RTT are being reported (from %d goroutines) and the estimate fell from %d to %d [%s]", where, nTasks, last, cur, cfg)
+		}
+		last = cur
+	}
+	s.OnQuiescent = func() { observe("step " + itoa(s.Step)) }
+	s.Run()
+	if s.Failed() != nil || s.Truncated {
+		return
+	}
+	observe("after all samples returned")
+	if last != start {
+		r.Nontrivial = true
+		r.Probe("concurrent_monotone_checked")
 	}
 }
